@@ -99,7 +99,7 @@ func matrixFor(prop string) []string {
 		return []string{"reserved", "numbered", "derived", "initialisms"}
 	case "C13":
 		return []string{"initialisms", "derived", "numbered", "stale"}
-	case "C11", "C09", "C10":
+	case "C11", "C09", "C10", "C02", "C20":
 		return []string{"stale"}
 	}
 	return nil
